@@ -223,7 +223,7 @@ func runPersistCase(work string, c *PersistCase) {
 				return
 			}
 			var hs raftpb.HardState
-			st.LastAt, hs, err = imageState(dir)
+			st.LastAt, hs, err = imageState(dir, gate)
 			if err != nil {
 				c.Err = fmt.Sprintf("step %d: image: %v", i, err)
 				return
@@ -245,7 +245,7 @@ func runPersistCase(work string, c *PersistCase) {
 				return
 			}
 			var hs raftpb.HardState
-			st.LastAt, hs, err = imageState(dir)
+			st.LastAt, hs, err = imageState(dir, gate)
 			if err != nil {
 				c.Err = fmt.Sprintf("step %d: image: %v", i, err)
 				return
@@ -264,10 +264,12 @@ func runPersistCase(work string, c *PersistCase) {
 
 // imageState: what a SIGKILL at this instant leaves - a copy of the storage directory (file level, no lock of the
 // running store is taken: the node may be blocked inside Save), reopened as a restart would
-func imageState(dir string) (uint64, raftpb.HardState, error) {
+func imageState(dir string, gate *wgate) (uint64, raftpb.HardState, error) {
 	img := dir + fmt.Sprintf("-img-%d", time.Now().UnixNano())
 	defer os.RemoveAll(img)
-	if err := crashfs.CopyTree(dir, img); err != nil {
+	err := crashfs.CopyTree(dir, img) // while the gate is as it was at the hand-off
+	gate.set(false)                   // the recorder serialises every file operation: reopen the image with the gate open
+	if err != nil {
 		return 0, raftpb.HardState{}, err
 	}
 	st, err := raftlog.Init(img, 0)
